@@ -7,7 +7,7 @@
 
         held = sum of granted weights - sum of released weights (reset to 0 by an over-release)
 
-   and checks at every instant (script instants, deadlines, observed return instants), after
+   and checks at every instant at which something was observed (a scripted call, a return), after
    the scripted call of that instant and all returns observed at that instant:
 
      bound      held <= the capacity the semaphore was created with
@@ -31,6 +31,106 @@ Definition exceedsb (w c : metric) : bool := ((mnum c <? mnum w) || (msize c <? 
 Definition meqb (a b : metric) : bool := ((mnum a =? mnum b) && (msize a =? msize b))%N.
 Definition mplus (a b : metric) : metric := mkM (mnum a + mnum b) (msize a + msize b).
 
+(* ---------- the acceptor proper: a chronological stream of instants ---------- *)
+
+(* what was observed of the scripted call of an instant *)
+Inductive opobs :=
+| ONoObs                                   (* Acquire (its return is among the returns), Terminate *)
+| OTryB (ok : bool)                        (* TryAcquire returned ok *)
+| ORelB (warn : option (metric * metric))  (* Release: the warning callback's arguments, if it was called *)
+| OProcB (m : metric).                     (* Processing() returned m *)
+
+Record irec := mkIR {
+  ir_t : Z;                                (* the instant *)
+  ir_op : option (sop * opobs);            (* the scripted call made at this instant, if any *)
+  ir_rets : list (N * bool)                (* Acquire calls that returned at this instant: id, result *)
+}.
+
+(* acceptor state: ghost account, capacity, requests that have not returned (id, weight, deadline) *)
+Record ast := mkAS {
+  a_held : metric; a_cap0 : metric; a_cap : metric; a_pend : list waiter; a_last : option Z
+}.
+
+Fixpoint ret_of (id : N) (rets : list (N * bool)) : option bool :=
+  match rets with
+  | [] => None
+  | (i, b) :: r => if (i =? id)%N then Some b else ret_of id r
+  end.
+
+Definition memNb (x : N) (l : list N) : bool := existsb (N.eqb x) l.
+Fixpoint nodupNb (l : list N) : bool :=
+  match l with [] => true | x :: r => negb (memNb x r) && nodupNb r end.
+
+Definition sum_w (l : list waiter) : metric := fold_right (fun p a => mplus (ww p) a) mzero l.
+
+Definition accept_op (a : ast) (t : Z) (o : option (sop * opobs)) : option ast :=
+  match o with
+  | None => Some a
+  | Some (SAcq id w timeout, ONoObs) =>
+    Some (mkAS (a_held a) (a_cap0 a) (a_cap a) (a_pend a ++ [mkW id w (t + timeout)%Z]) (a_last a))
+  | Some (STry w, OTryB b) =>
+    if Bool.eqb b (fitsb (a_held a) w (a_cap a))
+    then Some (mkAS (if b then mplus (a_held a) w else a_held a) (a_cap0 a) (a_cap a) (a_pend a) (a_last a))
+    else None
+  | Some (SRel w, ORelB x) =>
+    if mlt_any (a_held a) w
+    then match x with
+         | Some (h', w') => if meqb h' (a_held a) && meqb w' w
+                            then Some (mkAS mzero (a_cap0 a) (a_cap a) (a_pend a) (a_last a)) else None
+         | None => None
+         end
+    else match x with
+         | None => Some (mkAS (msub (a_held a) w) (a_cap0 a) (a_cap a) (a_pend a) (a_last a))
+         | Some _ => None
+         end
+  | Some (STerm, ONoObs) => Some (mkAS (a_held a) (a_cap0 a) mzero (a_pend a) (a_last a))
+  | Some (SProc, OProcB m) => if meqb m (a_held a) then Some a else None
+  | Some _ => None
+  end.
+
+Definition accept_returns (a : ast) (t : Z) (rets : list (N * bool)) : option ast :=
+  let ids := map fst rets in
+  let cl := fun (want : option bool) =>
+    filter (fun p => match ret_of (wid p) rets, want with
+                     | Some b, Some b' => Bool.eqb b b'
+                     | None, None => true
+                     | _, _ => false end) (a_pend a) in
+  let granted := cl (Some true) in
+  let h_end := mplus (a_held a) (sum_w granted) in
+  let c := a_cap a in
+  if negb (nodupNb ids) then None                                                  (* one return per caller *)
+  else if negb (forallb (fun i => memNb i (map wid (a_pend a))) ids) then None     (* only pending callers return *)
+  else if negb (fitsb h_end mzero (a_cap0 a)) then None                            (* bound *)
+  else if negb (match granted with [] => true | _ => fitsb h_end mzero c end) then None   (* grants fit *)
+  else if negb (forallb (fun p => negb (fitsb h_end (ww p) c) &&
+                                  (exceedsb (ww p) c || (wdl p <=? t)%Z)) (cl (Some false))) then None
+  else if negb (forallb (fun p => negb (fitsb h_end (ww p) c) &&
+                                  negb (exceedsb (ww p) c) && (t <? wdl p)%Z) (cl None)) then None
+  else Some (mkAS h_end (a_cap0 a) c (cl None) (Some t)).
+
+Definition accept_step (a : ast) (r : irec) : option ast :=
+  let t := ir_t r in
+  if match a_last a with Some t0 => negb (t0 <? t)%Z | None => false end then None   (* instants increase *)
+  else if existsb (fun p => (wdl p <? t)%Z) (a_pend a) then None     (* someone's deadline passed unanswered *)
+  else match accept_op a t (ir_op r) with
+       | Some a' => accept_returns a' t (ir_rets r)
+       | None => None
+       end.
+
+Fixpoint accept_run (a : ast) (l : list irec) : option ast :=
+  match l with
+  | [] => Some a
+  | r :: l' => match accept_step a r with Some a' => accept_run a' l' | None => None end
+  end.
+
+Definition accept (c : metric) (l : list irec) : bool :=
+  match accept_run (mkAS mzero c c [] None) l with
+  | Some a => match a_pend a with [] => true | _ => false end      (* everybody returned *)
+  | None => false
+  end.
+
+(* ---------- arranging a per-call observation (harness format) as a stream ---------- *)
+
 Record digest := mkD {
   d_rets : list (N * (bool * Z));                 (* Acquire id returned ok at instant t; absent = never *)
   d_tries : list bool;                            (* TryAcquire results, in script order *)
@@ -38,123 +138,54 @@ Record digest := mkD {
   d_procs : list metric                           (* Processing() values, in script order *)
 }.
 
-Fixpoint lookup_ret (id : N) (l : list (N * (bool * Z))) : option (bool * Z) :=
-  match l with
-  | [] => None
-  | (i, r) :: l' => if (i =? id)%N then Some r else lookup_ret id l'
-  end.
-
-Record pend := mkP { pid : N; pw : metric; pdl : Z }.
-
-Record sst := mkSS {
-  g_held : metric; g_cap0 : metric; g_cap : metric; g_pend : list pend;
-  g_tries : list bool; g_rels : list (option (metric * metric)); g_procs : list metric
-}.
-
-(* the scripted call of this instant *)
-Definition spec_op (s : sst) (t : Z) (op : sop) : option sst :=
-  match op with
-  | SAcq id w timeout =>
-    Some (mkSS (g_held s) (g_cap0 s) (g_cap s) (g_pend s ++ [mkP id w (Z.add t timeout)]) (g_tries s) (g_rels s) (g_procs s))
-  | STry w =>
-    match g_tries s with
-    | b :: r =>
-      if Bool.eqb b (fitsb (g_held s) w (g_cap s))
-      then Some (mkSS (if b then mplus (g_held s) w else g_held s) (g_cap0 s) (g_cap s) (g_pend s) r (g_rels s) (g_procs s))
-      else None
-    | [] => None
-    end
-  | SRel w =>
-    match g_rels s with
-    | x :: r =>
-      if mlt_any (g_held s) w
-      then match x with
-           | Some (h', w') => if meqb h' (g_held s) && meqb w' w
-                              then Some (mkSS mzero (g_cap0 s) (g_cap s) (g_pend s) (g_tries s) r (g_procs s)) else None
-           | None => None
-           end
-      else match x with
-           | None => Some (mkSS (msub (g_held s) w) (g_cap0 s) (g_cap s) (g_pend s) (g_tries s) r (g_procs s))
-           | Some _ => None
-           end
-    | [] => None
-    end
-  | STerm => Some (mkSS (g_held s) (g_cap0 s) mzero (g_pend s) (g_tries s) (g_rels s) (g_procs s))
-  | SProc =>
-    match g_procs s with
-    | m :: r => if meqb m (g_held s) then Some (mkSS (g_held s) (g_cap0 s) (g_cap s) (g_pend s) (g_tries s) (g_rels s) r) else None
-    | [] => None
-    end
-  end.
-
-(* classification of a pending request at instant t *)
-Inductive cls := Granted | Refused | Pending | Bad.
-Definition classify (rets : list (N * (bool * Z))) (t : Z) (p : pend) : cls :=
-  match lookup_ret (pid p) rets with
-  | None => Pending
-  | Some (ok, t') =>
-    if Z.eqb t' t then (if ok then Granted else Refused)
-    else if Z.ltb t t' then Pending else Bad     (* returned before this instant but still pending: before its call *)
-  end.
-
-Definition is_cls (c d : cls) : bool :=
-  match c, d with Granted, Granted | Refused, Refused | Pending, Pending | Bad, Bad => true | _, _ => false end.
-
-Definition sum_w (l : list pend) : metric := fold_right (fun p a => mplus (pw p) a) mzero l.
-
-Definition spec_returns (rets : list (N * (bool * Z))) (s : sst) (t : Z) : option sst :=
-  let cl := fun c => filter (fun p => is_cls (classify rets t p) c) (g_pend s) in
-  let h_end := mplus (g_held s) (sum_w (cl Granted)) in
-  let c := g_cap s in
-  if negb (match cl Bad with [] => true | _ => false end) then None
-  else if negb (fitsb h_end mzero (g_cap0 s)) then None                          (* bound *)
-  else if negb (match cl Granted with [] => true | _ => fitsb h_end mzero c end) then None   (* grants fit *)
-  else if negb (forallb (fun p => negb (fitsb h_end (pw p) c) &&
-                                  (exceedsb (pw p) c || Z.leb (pdl p) t)) (cl Refused)) then None
-  else if negb (forallb (fun p => negb (fitsb h_end (pw p) c) &&
-                                  negb (exceedsb (pw p) c) && Z.ltb t (pdl p)) (cl Pending)) then None
-  else Some (mkSS h_end (g_cap0 s) c (cl Pending) (g_tries s) (g_rels s) (g_procs s)).
-
 Fixpoint find_op (t : Z) (sc : list (Z * sop)) : option sop :=
   match sc with
   | [] => None
-  | (t', op) :: r => if Z.eqb t' t then Some op else find_op t r
+  | (t', op) :: r => if (t' =? t)%Z then Some op else find_op t r
   end.
 
-Definition spec_instant rets (sc : list (Z * sop)) (s : sst) (t : Z) : option sst :=
-  match find_op t sc with
-  | Some op => match spec_op s t op with Some s' => spec_returns rets s' t | None => None end
-  | None => spec_returns rets s t
-  end.
-
-Fixpoint spec_run rets sc (s : sst) (ts : list Z) : option sst :=
-  match ts with
-  | [] => Some s
-  | t :: r => match spec_instant rets sc s t with Some s' => spec_run rets sc s' r | None => None end
-  end.
-
-(* sorted, duplicate-free list of instants *)
 Fixpoint insertZ (x : Z) (l : list Z) : list Z :=
   match l with
   | [] => [x]
-  | y :: r => if Z.ltb x y then x :: l else if Z.eqb x y then l else y :: insertZ x r
+  | y :: r => if (x <? y)%Z then x :: l else if (x =? y)%Z then l else y :: insertZ x r
   end.
 Definition sortZ (l : list Z) : list Z := fold_right insertZ [] l.
 
-Definition deadlines (sc : list (Z * sop)) : list Z :=
-  flat_map (fun x => match snd x with SAcq _ _ timeout => [Z.add (fst x) timeout] | _ => [] end) sc.
-
 Definition instants (sc : list (Z * sop)) (d : digest) : list Z :=
-  sortZ (map fst sc ++ deadlines sc ++ map (fun x => snd (snd x)) (d_rets d)).
+  sortZ (map fst sc ++ map (fun x => snd (snd x)) (d_rets d)).
+
+(* walk the instants in order, handing each scripted call the next observation of its kind *)
+Fixpoint stream_of (sc : list (Z * sop)) (rets : list (N * (bool * Z)))
+         (tries : list bool) (rels : list (option (metric * metric))) (procs : list metric)
+         (ts : list Z) : list irec * bool :=
+  match ts with
+  | [] => ([], match tries, rels, procs with [], [], [] => true | _, _, _ => false end)
+  | t :: ts' =>
+    let here := map (fun x => (fst x, fst (snd x))) (filter (fun x => (snd (snd x) =? t)%Z) rets) in
+    match find_op t sc with
+    | Some (STry w) =>
+      match tries with
+      | b :: tr' => let '(l, ok) := stream_of sc rets tr' rels procs ts' in (mkIR t (Some (STry w, OTryB b)) here :: l, ok)
+      | [] => ([], false)
+      end
+    | Some (SRel w) =>
+      match rels with
+      | x :: rl' => let '(l, ok) := stream_of sc rets tries rl' procs ts' in (mkIR t (Some (SRel w, ORelB x)) here :: l, ok)
+      | [] => ([], false)
+      end
+    | Some SProc =>
+      match procs with
+      | m :: pr' => let '(l, ok) := stream_of sc rets tries rels pr' ts' in (mkIR t (Some (SProc, OProcB m)) here :: l, ok)
+      | [] => ([], false)
+      end
+    | Some op => let '(l, ok) := stream_of sc rets tries rels procs ts' in (mkIR t (Some (op, ONoObs)) here :: l, ok)
+    | None => let '(l, ok) := stream_of sc rets tries rels procs ts' in (mkIR t None here :: l, ok)
+    end
+  end.
 
 Definition spec_check (c : metric) (sc : list (Z * sop)) (d : digest) : bool :=
-  match spec_run (d_rets d) sc (mkSS mzero c c [] (d_tries d) (d_rels d) (d_procs d)) (instants sc d) with
-  | Some s => match g_pend s, g_tries s, g_rels s, g_procs s with
-              | [], [], [], [] => true
-              | _, _, _, _ => false
-              end
-  | None => false
-  end.
+  let '(l, ok) := stream_of sc (d_rets d) (d_tries d) (d_rels d) (d_procs d) (instants sc d) in
+  ok && accept c l.
 
 (* digest of a chronological observation list (as produced by the model's scheduler) *)
 Fixpoint digest_of (ob : list sobs) : digest :=
@@ -227,3 +258,20 @@ Inductive reachable_u (c : metric) : state -> Prop :=
 | reach_u_step st now ev : reachable_u c st -> ev_wf ev ->
     match ev with ECall id _ _ _ => ~ In id (map wid (pending st)) | _ => True end ->
     reachable_u c (fst (step true st now ev)).
+
+(* ---------- well-formed scripts (C30_model_meets_spec) ---------- *)
+Definition sop_wf (op : sop) : Prop :=
+  match op with SAcq _ w _ | STry w | SRel w => m_wf w | _ => True end.
+Fixpoint times_inc (t : Z) (sc : list (Z * sop)) : Prop :=
+  match sc with [] => True | (now, _) :: r => (t < now)%Z /\ times_inc now r end.
+Definition acq_ids (sc : list (Z * sop)) : list N :=
+  flat_map (fun x => match snd x with SAcq id _ _ => [id] | _ => [] end) sc.
+(* deadlines of the Acquire calls that can block at all (positive timeout) *)
+Definition pos_deadlines (sc : list (Z * sop)) : list Z :=
+  flat_map (fun x => match snd x with SAcq _ _ timeout => if (0 <? timeout)%Z then [(fst x + timeout)%Z] else [] | _ => [] end) sc.
+(* one call per instant at increasing instants, goroutine ids unique, Go-valued weights, and no deadline
+   falls exactly on the instant of a scripted call (the order of a timer callback and a call at the very
+   same instant is not determined) *)
+Definition script_wf (t0 : Z) (sc : list (Z * sop)) : Prop :=
+  times_inc t0 sc /\ NoDup (acq_ids sc) /\ (forall x, In x sc -> sop_wf (snd x)) /\
+  (forall d x, In d (pos_deadlines sc) -> In x sc -> fst x <> d).
